@@ -994,7 +994,52 @@ def tiny_universe(index, uid):
             "problem": {"req": [{"s": root}], "con": [], "soft": []}, "family": "tiny"}
 
 
+def diamond_universe(rng, uid):
+    """Layered diamonds: every candidate of layer i requires 'any candidate' of layer i+1 (sometimes two requirements, sometimes
+    a union of two version sets); the last layer requires a missing package or is excluded - an unsolvable problem whose
+    conflict graph has exponentially many root-to-leaf paths but only a linear number of nodes and edges (C04: bounded output)."""
+    layers = rng.randint(4, 8)
+    pkgs, solvables, vsets, unions = [], [], [], []
+    for p in range(layers):
+        nc = rng.randint(2, 3)
+        cands = list(range(len(solvables), len(solvables) + nc))
+        for c in cands:
+            solvables.append({"id": c, "name": p, "deps": {"req": [], "con": []}})
+        pkgs.append({"name": p, "exists": True, "cands": cands, "rank": cands[:], "favored": None, "locked": None,
+                     "excluded": [], "hint": "none"})
+        vsets.append({"id": len(vsets), "name": p, "match": cands[:]})            # vs 2p: any
+        vsets.append({"id": len(vsets), "name": p, "match": cands[:rng.randint(1, nc)]})   # vs 2p+1: a prefix
+    missing = layers
+    pkgs.append({"name": missing, "exists": False, "cands": [], "rank": [], "favored": None, "locked": None, "excluded": [], "hint": "none"})
+    vsets.append({"id": len(vsets), "name": missing, "match": []})
+    vs_missing = len(vsets) - 1
+    for s in solvables:
+        p = s["name"]
+        if p + 1 < layers:
+            if rng.random() < 0.3:
+                unions.append([2 * (p + 1) + 1, 2 * (p + 1)])
+                s["deps"]["req"].append({"u": len(unions) - 1})
+            else:
+                s["deps"]["req"].append({"s": 2 * (p + 1)})
+        else:
+            mode = rng.random()
+            if mode < 0.6:
+                s["deps"]["req"].append({"s": vs_missing})
+            elif mode < 0.8:
+                s["deps"] = None
+            else:
+                pkgs[p]["excluded"].append(s["id"])
+    problem = {"req": [{"s": 0}], "con": [], "soft": []}
+    if rng.random() < 0.3:
+        problem["cancel_in_rendering"] = True
+    return {"id": uid, "packages": pkgs, "solvables": solvables, "version_sets": vsets, "unions": unions, "problem": problem}
+
+
 def generate(seed, family, n, start_id=0):
+    if family == "diamond":
+        import zlib
+        rng = random.Random((seed * 1000003) ^ zlib.crc32(b"diamond"))
+        return [dict(diamond_universe(rng, start_id + i), family=family) for i in range(n)]
     if family == "tiny":
         # quick: a window of n consecutive indices chosen by the seed; n >= TINY_TOTAL: the whole family
         if n >= TINY_TOTAL:
